@@ -1,8 +1,8 @@
-\* negative control (a limit of the code, not of the property as used: default 22): half windows of 90 degrees and more are not circular
+\* negative control (a limit of the code, not of the property as used: default 22): half windows above 89 degrees (here 89.5) are not circular
 CONSTANTS
-  HalfWindows = {90}
+  HalfWindows = {179}
   WrapStyle = "code"
-  Rotations = {90}
+  Rotations = {179}
 INIT Init
 NEXT Body
 CHECK_DEADLOCK FALSE
